@@ -122,7 +122,12 @@ func GetFileNameList(path string, ignoreList []string) (fields []Field, err erro
 			copy(fnwi.Creator[:], hlFile.Ffo.FlatFileInformationFork.CreatorSignature[:])
 		}
 
-		strippedName := strings.ReplaceAll(file.Name(), ".incomplete", "")
+		// A partial upload is listed under its final name: strip the suffix - at the end of the name of something that is
+		// not a folder, and nowhere else (a file called my.incomplete.txt keeps its name).
+		strippedName := file.Name()
+		if !file.IsDir() {
+			strippedName = strings.TrimSuffix(strippedName, IncompleteFileSuffix)
+		}
 		strippedName, err = txtEncoder.String(strippedName)
 		if err != nil {
 			continue
